@@ -284,6 +284,59 @@ Proof.
   unfold to_nd. destruct l; try discriminate; try (intros H; injection H; discriminate). eauto.
 Qed.
 
+(* the elements shown are scalars: blank -> 0, everything else itself *)
+Lemma belem_scalar l a i j u : to_nd l = Ok a -> belem a i j = Some u -> scalar_like u = true.
+Proof.
+  unfold to_nd. destruct l; try discriminate;
+    try (intros H; injection H as <-; cbn [belem]; intros E; injection E as <-; reflexivity).
+  destruct (rows_of l) as [[|r0 rest]|]; try discriminate.
+  destruct (negb (Nat.eqb (length r0) 0) && rect (length r0) (r0 :: rest)
+            && forallb (forallb scalar_like) (r0 :: rest)) eqn:E; [|discriminate].
+  intros H. injection H as <-. apply andb_true_iff in E. destruct E as [_ E].
+  cbn [belem]. set (rows := r0 :: rest) in *.
+  destruct (nth_error rows (if Nat.eqb (length rows) 1 then O else i)) as [row|] eqn:Er; [|discriminate].
+  intros Eu. rewrite forallb_forall in E. specialize (E row (nth_error_In _ _ Er)).
+  rewrite forallb_forall in E. apply E. eapply nth_error_In. exact Eu.
+Qed.
+
+(* the scalar operator returns a value of Excel (number, text, logical, error
+   value) whenever it returns: C10's totality / exactness theorems, by cases *)
+Lemma scalar_like_scalar v : scalar_like v = true -> scalar v.
+Proof. destruct v; try discriminate; intros _; exact I. Qed.
+
+Lemma fixup_value l o r x : scalar l -> scalar r -> fixup l o r = Ok x -> xl_value x.
+Proof.
+  intros Hsl Hsr Hx.
+  assert (Hv : forall y, scalar y -> in_error_codes y = Ok true -> xl_value y).
+  { intros y Hy He. destruct y; cbn [scalar] in Hy; try contradiction; try exact I; discriminate He. }
+  destruct (in_error_scalar l Hsl) as ([|] & Hel).
+  { rewrite (error_left l o r Hel) in Hx. injection Hx as <-. apply Hv; assumption. }
+  destruct (in_error_scalar r Hsr) as ([|] & Her).
+  { rewrite (error_right l o r Hel Her) in Hx. injection Hx as <-. apply Hv; assumption. }
+  destruct (op_modelled o l) eqn:Ml;
+    [|rewrite (unmodelled_exact l o r Hsl Hsr Hel Her (or_introl Ml)) in Hx; discriminate Hx].
+  destruct (op_modelled o r) eqn:Mr;
+    [|rewrite (unmodelled_exact l o r Hsl Hsr Hel Her (or_intror Mr)) in Hx; discriminate Hx].
+  assert (Hne : o <> Pow -> xl_value x).
+  { intros Ho. destruct (total l o r Hsl Hsr Hel Her Ho Ml Mr) as (v & Hf & Hr).
+    rewrite Hf in Hx. injection Hx as <-. eapply result_ok_value. exact Hr. }
+  destruct o; try (apply Hne; discriminate).
+  unfold op_modelled in Ml, Mr. cbn [is_cmp] in Ml, Mr.
+  destruct (pow_total l r Hsl Hsr Hel Her Ml Mr) as (l1 & r1 & _ & _ & _ & _ & Ht & Hf).
+  destruct (pow_modelled l1 r1).
+  - destruct (Ht eq_refl) as (v & Hv' & Hr). rewrite Hv' in Hx. injection Hx as <-.
+    destruct Hr as [Hn|[->|[->| ->]]]; try exact I. destruct v; cbn [number] in Hn; try contradiction; exact I.
+  - rewrite (Hf eq_refl) in Hx. discriminate Hx.
+Qed.
+
+Lemma fixup_scalar_like l o r x :
+  scalar_like l = true -> scalar_like r = true -> fixup l o r = Ok x -> scalar_like x = true.
+Proof.
+  intros Sl Sr Hx.
+  pose proof (fixup_value l o r x (scalar_like_scalar l Sl) (scalar_like_scalar r Sr) Hx) as Hv.
+  destruct x; cbn [xl_value] in Hv; try contradiction; reflexivity.
+Qed.
+
 (* C13_formula_op_member: the whole clause for operators.  The formula
    =l o r (the compiled code calls op_fixup) entered over an h x w target:
    the member stamped (i, j) shows the scalar operator on the operands'
@@ -298,11 +351,16 @@ Theorem formula_op_member l o r a b R C res h w i j :
   let jj := if Nat.eqb C 1 then O else pos j in
   ((ii < R)%nat /\ (jj < C)%nat ->
      exists u v x, belem a ii jj = Some u /\ belem b ii jj = Some v /\ fixup u o v = Ok x
-                   /\ cse_member h w res i j = shown x)
+                   /\ cse_member h w res i j = Ok (if is_blank x then VInt 0 else x))
   /\ (~ ((ii < R)%nat /\ (jj < C)%nat) -> cse_member h w res i j = Ok NA).
 Proof.
-  intros Ha Hb Hs El Er Hres. rewrite op_dispatch in Hres.
-  - apply (op_member l o r a b R C res h w i j Ha Hb Hs Hres).
+  intros Ha Hb Hs El Er Hres Hi Hj ii jj. rewrite op_dispatch in Hres.
+  - destruct (op_member l o r a b R C res h w i j Ha Hb Hs Hres Hi Hj) as [Hin Hout].
+    split; [|exact Hout]. intros Hp. destruct (Hin Hp) as (u & v & x & Hu & Hv & Hx & Hm).
+    exists u, v, x. repeat split; try assumption. rewrite Hm. apply shown_scalar.
+    apply (fixup_scalar_like u o v x); try assumption.
+    + apply (belem_scalar l a _ _ u Ha Hu).
+    + apply (belem_scalar r b _ _ v Hb Hv).
   - apply (to_nd_operand l a Ha).
   - apply (to_nd_operand r b Hb).
   - exact El.
@@ -310,21 +368,6 @@ Proof.
   - destruct a as [va|ra].
     + destruct b as [vb|rb]; [discriminate Hs|]. right. apply (to_nd_array r rb Hb).
     + left. apply (to_nd_array l ra Ha).
-Qed.
-
-(* the elements shown are scalars: blank -> 0, everything else itself *)
-Lemma belem_scalar l a i j u : to_nd l = Ok a -> belem a i j = Some u -> scalar_like u = true.
-Proof.
-  unfold to_nd. destruct l; try discriminate;
-    try (intros H; injection H as <-; cbn [belem]; intros E; injection E as <-; reflexivity).
-  destruct (rows_of l) as [[|r0 rest]|]; try discriminate.
-  destruct (negb (Nat.eqb (length r0) 0) && rect (length r0) (r0 :: rest)
-            && forallb (forallb scalar_like) (r0 :: rest)) eqn:E; [|discriminate].
-  intros H. injection H as <-. apply andb_true_iff in E. destruct E as [_ E].
-  cbn [belem]. set (rows := r0 :: rest) in *.
-  destruct (nth_error rows (if Nat.eqb (length rows) 1 then O else i)) as [row|] eqn:Er; [|discriminate].
-  intros Eu. rewrite forallb_forall in E. specialize (E row (nth_error_In _ _ Er)).
-  rewrite forallb_forall in E. apply E. eapply nth_error_In. exact Eu.
 Qed.
 
 (* lifted functions: cse_wrapper's result entered over a target *)
